@@ -311,4 +311,10 @@ def rule_if_changed_early(ctx):
     r.floor(5)
 
 
-RULES = [rule_check_writes_nothing, rule_status, rule_same_bytes, rule_if_changed_early]
+def rule_capture_per_file(ctx):
+    """what --check / --if-changed compare is the buffer *cpd.bout: it must hold the bytes of this file only"""
+    from . import c11
+    c11.rule_reset(ctx, rid="capture-per-file", only=("cpd.bout",))
+
+
+RULES = [rule_check_writes_nothing, rule_status, rule_same_bytes, rule_if_changed_early, rule_capture_per_file]
